@@ -784,6 +784,7 @@ def reaches_special(g):
 # regeneration entry points (used by ./check --setup and checks/c20.py)
 # --------------------------------------------------------------------------------------------------
 
+@vlib.locked
 def regen_generated(graphs=None):
     """rewrite coq/Generated/TypeGraph.v and TypeGraphNoTS.v from /repo"""
     out = {}
